@@ -83,9 +83,9 @@ fn main() {
         Some("worker") => worker_main(),
         Some("selftest") => {
             rt::install_panic_hook();
-            match seams::self_test() {
+            match seams::self_test().and_then(|_| rt::self_test()) {
                 Ok(()) => {
-                    println!("seam self-test ok");
+                    println!("seam self-test ok (clock, entropy, simulated futex)");
                     0
                 }
                 Err(e) => {
